@@ -79,6 +79,12 @@ impl DcpsStatusCondition {
 
     pub fn set_enabled_statuses(&mut self, mask: StatusMask) {
         self.enabled_statuses = mask;
+        // Enabling a status that has already changed makes the trigger value true
+        if self.get_trigger_value() {
+            for w in self.registered_notifications.drain(..) {
+                w.notify();
+            }
+        }
     }
 
     pub fn get_trigger_value(&self) -> bool {
